@@ -3,6 +3,7 @@ package main
 import (
 	"errors"
 	"fmt"
+	"math/rand"
 	"path/filepath"
 
 	"github.com/klev-dev/klevdb/pkg/index"
@@ -71,14 +72,35 @@ func runSearchCases(r *SeqRun, fns []string, maxLen, maxVal, maxLenT int) {
 			inc = append(inc, a)
 		}
 	}
+	// beyond the exhaustive small scope: seeded long arrays (12..70 items, holes), every probe in range; a
+	// shortcut that only exists for long indexes (e.g. "search the last 16 items first") is out of reach of the
+	// small scope
+	rng := rand.New(rand.NewSource(r.Seed*7919 + 17))
+	nLong := tierN(r.Tier, 40, 1500)
+	hi := map[string]int64{} // per long array: the largest probe
+	for n := 0; n < nLong; n++ {
+		ln := 12 + rng.Intn(59)
+		var a []int64
+		v := int64(rng.Intn(3))
+		for len(a) < ln {
+			a = append(a, v)
+			v += 1 + int64(rng.Intn(3))*int64(rng.Intn(2))
+		}
+		hi[fmt.Sprint(a)] = v + 1
+		inc = append(inc, a)
+	}
 	for _, a := range inc {
+		top := int64(maxVal + 2)
+		if h, ok := hi[fmt.Sprint(a)]; ok && len(a) >= 12 {
+			top = h
+		}
 		items := make([]index.Item, len(a))
 		segs := make([]segOff, len(a))
 		for k, v := range a {
 			items[k] = index.Item{Offset: v, Position: int64(10 * k)}
 			segs[k] = segOff(v)
 		}
-		for p := int64(-3); p <= int64(maxVal+2); p++ {
+		for p := int64(-3); p <= top; p++ {
 			func() {
 				defer func() {
 					if x := recover(); x != nil {
@@ -142,6 +164,30 @@ func runSearchCases(r *SeqRun, fns []string, maxLen, maxVal, maxLenT int) {
 			}
 		}
 		rec(nil)
+		// long non-decreasing timestamp arrays with runs of equal values
+		for n := 0; n < nLong; n++ {
+			ln := 12 + rng.Intn(59)
+			a := make([]int64, 0, ln)
+			v := int64(rng.Intn(3))
+			for len(a) < ln {
+				a = append(a, v)
+				if rng.Intn(3) > 0 { // runs of equal timestamps, 2-3 items on average
+					v += int64(rng.Intn(3))
+				}
+			}
+			items := make([]index.Item, len(a))
+			for k, t := range a {
+				items[k] = index.Item{Offset: int64(k), Position: int64(10 * k), Timestamp: t}
+			}
+			for p := int64(-2); p <= v+2; p++ {
+				pos, err := index.Time(items, p)
+				if err != nil {
+					emit("index.Time", a, p, res(searchErr(err), 0, 0))
+				} else {
+					emit("index.Time", a, p, res("", pos2i(pos), 0))
+				}
+			}
+		}
 	}
 	tw.Close()
 	r.mu.Lock()
